@@ -17,10 +17,9 @@ def run(ctx):
     if len(shapes) < 100:
         raise Infra("too few shapes: %d" % len(shapes))
     if ctx.quick():
-        shapes = rng.sample(shapes, 500)
-        inst, nstreams = 1, 10
+        inst, nstreams = 3, 10
     else:
-        inst, nstreams = 4, 12
+        inst, nstreams = 20, 14
     inp = os.path.join(ctx.scratch, "dm_in.json")
     with open(inp, "w") as fh:
         json.dump({"shapes": shapes}, fh)
@@ -31,6 +30,9 @@ def run(ctx):
     go_must_pass(rc, o, "datamatch harness")
     skipped = re.findall(r"VERIF-SKIPPED (\d+) (.*)", o)
     rows = read_ndjson(out)
+    for r in [x for x in rows if "panic" in x]:
+        ctx.violation("C04.SearchPanics:%s" % r["feat"], "the search panics (%s) for %s" % (r["panic"][:200], r["text"]), {"row": r})
+    rows = [x for x in rows if "panic" not in x]
     if len(rows) < 1000:
         raise Infra("too few rows: %d (skipped: %s)" % (len(rows), skipped))
     nproc = 12
